@@ -2,7 +2,8 @@
    [model agrees with the observation; idempotent; alias_preserved; mode_enforced;
     untouched_preserved; dict_roundtrip; twin_same; slots_preserved; envelope_roundtrip;
     sequence_independent; decode_independent_of_earlier_results;
-    bulk_descriptions_keep_normal_form; refusal_leaves_siblings] *)
+    bulk_descriptions_keep_normal_form; refusal_leaves_siblings;
+    client_slots_readable; client_slots_keep_placement] *)
 From Coq Require Import ZArith List String Bool.
 From RP Require Import Common.Eqb Descr.Types Descr.Model.
 Import ListNotations.
@@ -119,7 +120,7 @@ Record td_obs := mkTdObs {
   o_twx : option descr;                 (* the twin given to the constructor (None: no deprecated name used) *)
   o_tw  : option (perr + descr) }.      (* TaskDescription(from_dict=twin).verify() *)
 
-Definition pad_slots_env : list bool := [true; true; true; true; true; true].
+Definition pad_slots_env : list bool := [true; true; true; true; true; true; true; true].
 
 Definition c19_td_row (T : table) (x : descr) (o : td_obs) : list bool :=
   [ descr_eqb (construct T x) (o_c o)
@@ -219,7 +220,7 @@ Definition c19_slots_row (os : list sop) (ss : list slot) (obs : list (perr + li
     ok_placement ss obs; true;
     (* the conversions leave their input alone (measured after the outputs were mutated) and
        give the same result when applied to it again *)
-    eqb_list slot_eqb ss input_after && rerun_same; true ; true; true ].
+    eqb_list slot_eqb ss input_after && rerun_same; true ; true; true; true; true ].
 
 (* ---- envelopes ---- *)
 Definition kwargs_eqb : kwargs -> kwargs -> bool := eqb_list (eqb_prod String.eqb atom_eqb).
@@ -248,7 +249,7 @@ Definition c19_env_row (callable : bool) (args : list atom) (kw : option kwargs)
     | inr (_, a, k), inr (a', k', _) => eqb_list atom_eqb a a' && eqb_option kwargs_eqb k k'
     | _, _ => false
     end; true; true; true; true; true; true; true;
-    ok_envelope callable args kw o; true; true ; true; true ].
+    ok_envelope callable args kw o; true; true ; true; true; true; true ].
 
 (* ---- sequences of task creations from one stateful callable ----
    a function value is identified by the state it carries (an integer the callable reports
@@ -285,7 +286,7 @@ Definition c19_envseq_row (decor : bool) (f_dec : Z) (steps : list (step Z)) (ob
                          | _, _ => false
                          end) (transport_seq_id decor f_dec steps) obs;
     true; true; true; true; true; true; true;
-    forallb2 ok_envelope_step steps obs; true; true ; true; true ].
+    forallb2 ok_envelope_step steps obs; true; true ; true; true; true; true ].
 
 (* ---- serialize_obj on callables of every kind ----
    inputs measured by the harness on the callable itself: does dill.dumps(f) succeed (by
@@ -330,7 +331,7 @@ Definition c19_envk_row (val_ok ref_ok pk_ok callable : bool) (args : list atom)
        | _, _ => false
        end;
     true; true; true; true; true; true; true;
-    ok_serialize val_ok ref_ok pk_ok so && ok_envelope_k val_ok ref_ok pk_ok callable args kw o; true; true ; true; true ].
+    ok_serialize val_ok ref_ok pk_ok so && ok_envelope_k val_ok ref_ok pk_ok callable args kw o; true; true ; true; true; true; true ].
 
 (* ---- sequences of descriptions in one process ----
    observed: the final _data of every description of the sequence.  Each must be what the
@@ -349,7 +350,7 @@ Definition c19_dseq_row (pd : bool) (T : table) (ops : list dop) (obs : list (na
   let '(mk, vf) := dseq_funs pd T in
   [ forallb (fun o => eqb_option descr_eqb (slot_get (fst o) (drun mk vf ops [])) (Some (snd o))) obs;
     true; true; true; true; true; true; true; true;
-    ok_independent pd T ops obs; true ; true; true ].
+    ok_independent pd T ops obs; true ; true; true; true; true ].
 
 (* ---- fresh Slot() objects after earlier ones were mutated in place ----
    observed: every Slot() as it was right after its construction *)
@@ -358,7 +359,7 @@ Definition default_slot : slot := mkSlot true (Some 1) (RInts []) (RInts []) 0 0
 Definition c19_slotdefault_row (obs : list slot) : list bool :=
   [ forallb (fun s => slot_eqb s default_slot) obs;
     true; true; true; true; true; true; true; true;
-    forallb (fun s => slot_eqb s default_slot) obs; true ; true; true ].
+    forallb (fun s => slot_eqb s default_slot) obs; true ; true; true; true; true ].
 
 (* ---- the same transport string decoded several times, earlier results mutated in between ----
    observed: what every get_func_attr call returned, looked at right when it returned (the
@@ -375,13 +376,13 @@ Definition ok_decodes (x : dres) (obs : list (dres * bool)) : bool :=
 Definition c19_decseq_row (x : dres) (ops : list rop) (obs : list (dres * bool)) : list bool :=
   [ eqb_list dres_eqb (snd (run_fresh x ops [])) (map fst obs);
     true; true; true; true; true; true; true; true; true;
-    ok_decodes x obs ; true; true ].
+    ok_decodes x obs ; true; true; true; true ].
 
 (* the real worker: the same function string dispatched k times (MPI communicator injected
    into kwargs['comm'] or args[0]); observed per run: did it return the expected value *)
 Definition c19_dispatch_row (obs : list bool) : list bool :=
   [ forallb (fun b => b) obs; true; true; true; true; true; true; true; true; true;
-    forallb (fun b => b) obs ; true; true ].
+    forallb (fun b => b) obs ; true; true; true; true ].
 
 (* ---- TaskManager.submit_tasks on bulks of description objects ----
    observed per call: the exception kind (or none), the objects whose tasks were handed on,
@@ -438,4 +439,30 @@ Definition c19_bulk_row (T : table) (srcs : list descr) (calls : list (list nat)
   [ bulk_corr (snd (submit_calls (verify T) calls (mkSub (init_store T srcs) [] 0))) obs [];
     true; true; true; true; true; true; true; true; true; true;
     forallb (fun o => forallb2 (ok_bulk_nf T) srcs (snd o)) obs;
-    forallb ok_siblings refs ].
+    forallb ok_siblings refs; true; true ].
+
+(* ---- the client reads a placement: Task._update, then Task.slots / Task.as_dict ----
+   observed: what Task.slots returned (or the exception), whether as_dict() raised, and whether
+   the second read gave the same as the first *)
+Definition opt_z_eqb := eqb_option Z.eqb.
+
+Definition pslot_eqb (a b : pslot) : bool :=
+  Bool.eqb (p_typed a) (p_typed b) && opt_z_eqb (p_version a) (p_version b)
+  && rspec_eqb (p_cores a) (p_cores b) && rspec_eqb (p_gpus a) (p_gpus b)
+  && opt_z_eqb (p_lfs a) (p_lfs b) && opt_z_eqb (p_mem a) (p_mem b) && opt_z_eqb (p_nidx a) (p_nidx b)
+  && eqb_option String.eqb (p_nname a) (p_nname b).
+
+Definition pplacement_eqb :=
+  eqb_list (eqb_prod (eqb_prod (eqb_prod (eqb_prod (eqb_prod Z.eqb String.eqb) (eqb_list Z.eqb))
+                                         (eqb_list Z.eqb)) Z.eqb) Z.eqb).
+
+Definition written (c : cinput) : list pslot := match c with CSlots l => l | _ => [] end.
+
+Definition c19_client_row (c : cinput) (obs : perr + list pslot) (as_dict_ok again_same : bool) : list bool :=
+  [ eqb_sum perr_eqb (eqb_list pslot_eqb) (client_slots c) obs
+    && Bool.eqb as_dict_ok (match client_slots c with inr _ => true | inl _ => false end);
+    true; true; true; true; true; true; true; true; true; true; true; true;
+    (* readable: neither Task.slots nor Task.as_dict raises, and reading twice gives the same *)
+    match obs with inr _ => as_dict_ok && again_same | inl _ => false end;
+    (* the placement the writer meant: same nodes, cores, GPUs, lfs, mem *)
+    match obs with inr l => pplacement_eqb (pplacement l) (pplacement (written c)) | inl _ => true end ].
